@@ -276,10 +276,12 @@ package lnwire
 //@   loop * havoc
 //@   bounds-safe
 //@
+//@ // a decoder that reads nothing accepts nothing but length zero: an unread value byte would be taken for the next record's type (finding F36)
 //@ func booleanDecoder
 //@   props C10
 //@   loop * havoc
 //@   bounds-safe
+//@   site return nil: assert l == 0
 //@
 //@ func decodeClosingSigs
 //@   props C10
